@@ -184,8 +184,7 @@ func (cat *Catalog) BuildKnowledgeBase() (*KnowledgeBase, error) {
 					return nil, err
 				}
 				dLen := binary.LittleEndian.Uint64(length)
-				byteArr := make([]byte, dLen)
-				_, err = buffer.Read(byteArr)
+				byteArr, err := readBytesFromReader(buffer, dLen)
 				if err != nil {
 					return nil, err
 				}
@@ -765,14 +764,14 @@ func (cat *Catalog) ReadCatalogFromReader(reader io.Reader) error {
 
 			return err
 		}
-		content := make([]string, incount)
+		content := make([]string, 0)
 		for subIndex := uint64(0); subIndex < incount; subIndex++ {
 			str, err := ReadStringFromReader(reader)
 			if err != nil {
 
 				return err
 			}
-			content[subIndex] = str
+			content = append(content, str)
 		}
 		cat.MemoryExpressionVariableMap[key] = content
 	}
@@ -796,14 +795,14 @@ func (cat *Catalog) ReadCatalogFromReader(reader io.Reader) error {
 
 			return err
 		}
-		content := make([]string, incount)
+		content := make([]string, 0)
 		for subIndex := uint64(0); subIndex < incount; subIndex++ {
 			str, err := ReadStringFromReader(reader)
 			if err != nil {
 
 				return err
 			}
-			content[subIndex] = str
+			content = append(content, str)
 		}
 		cat.MemoryExpressionAtomVariableMap[key] = content
 	}
@@ -1197,14 +1196,14 @@ func (meta *ArgumentListMeta) ReadMetaFrom(reader io.Reader) error {
 		return err
 	}
 
-	meta.ArgumentASTIDs = make([]string, integer)
+	meta.ArgumentASTIDs = make([]string, 0)
 	for index := uint64(0); index < integer; index++ {
 		s, err := ReadStringFromReader(reader)
 		if err != nil {
 
 			return err
 		}
-		meta.ArgumentASTIDs[index] = s
+		meta.ArgumentASTIDs = append(meta.ArgumentASTIDs, s)
 	}
 
 	return nil
@@ -1549,15 +1548,10 @@ func (meta *ConstantMeta) ReadMetaFrom(reader io.Reader) error {
 
 		return err
 	}
-	byteArr := make([]byte, length)
-	readCount, err := io.ReadFull(reader, byteArr)
+	byteArr, err := readBytesFromReader(reader, length)
 	if err != nil {
 
 		return err
-	}
-	if uint64(readCount) != length {
-
-		return io.ErrShortBuffer
 	}
 	meta.ValueBytes = byteArr
 
@@ -2261,14 +2255,14 @@ func (meta *ThenExpressionListMeta) ReadMetaFrom(reader io.Reader) error {
 		return err
 	}
 
-	meta.ThenExpressionIDs = make([]string, count)
+	meta.ThenExpressionIDs = make([]string, 0)
 	for index := uint64(0); index < count; index++ {
 		s, err := ReadStringFromReader(reader)
 		if err != nil {
 
 			return err
 		}
-		meta.ThenExpressionIDs[index] = s
+		meta.ThenExpressionIDs = append(meta.ThenExpressionIDs, s)
 	}
 
 	return nil
@@ -2556,6 +2550,39 @@ func WriteStringToWriter(writer io.Writer, s string) error {
 	return err
 }
 
+// readBytesFromReader reads exactly length bytes. The buffer grows with the data that actually
+// arrives, so a corrupt length field can not make the loader allocate more than the stream holds.
+func readBytesFromReader(reader io.Reader, length uint64) ([]byte, error) {
+	if length > math.MaxInt32 {
+
+		return nil, fmt.Errorf("invalid length %d in stream", length)
+	}
+	if length <= 64*1024 {
+		// the usual case: a short field is read in one piece
+		byteArr := make([]byte, length)
+		counter, err := io.ReadFull(reader, byteArr)
+		TotalRead += uint64(counter)
+		if err != nil {
+
+			return nil, err
+		}
+
+		return byteArr, nil
+	}
+	var buffer bytes.Buffer
+	counter, err := io.CopyN(&buffer, reader, int64(length))
+	TotalRead += uint64(counter)
+	if err != nil {
+		if err == io.EOF && counter > 0 {
+			err = io.ErrUnexpectedEOF
+		}
+
+		return nil, err
+	}
+
+	return buffer.Bytes(), nil
+}
+
 // ReadStringFromReader read a string from reader.
 func ReadStringFromReader(reader io.Reader) (string, error) {
 	length := make([]byte, 8)
@@ -2567,9 +2594,7 @@ func ReadStringFromReader(reader io.Reader) (string, error) {
 		return "", err
 	}
 	strLen := binary.LittleEndian.Uint64(length)
-	strByte := make([]byte, int(strLen))
-	counter, err = io.ReadFull(reader, strByte)
-	TotalRead += uint64(counter)
+	strByte, err := readBytesFromReader(reader, strLen)
 	if err != nil {
 
 		return "", err
